@@ -25,9 +25,7 @@ func init() {
 			}
 			return 2400
 		},
-		Rule: "case = pair of unrooted trees on the same taxa (independent / identical / contraction / refinement / NNI neighbour / star vs binary, " +
-			"re-rooted and rotated presentations) x {tips} x {identical-only}; Compare, CompareWeighted (all lengths present: exact terms; lengths partly or wholly absent: self-comparison gives zero differences, swapping negates them), CommonEdges, and (every 8th case) the " +
-			"gotree compare trees table; plus taxon-mismatch variants; non-trivial = both trees have an inner branch and the pair is not (0,0,0); distinct by the two texts",
+		Rule: "case = pair of unrooted trees on the same taxa (independent / identical / contraction / refinement / NNI neighbour / star vs binary, re-rooted and rotated presentations) x {tips} x {identical-only}; Compare, CompareWeighted (all lengths present: exact terms; lengths partly or wholly absent: self-comparison gives zero differences, swapping negates them), CommonEdges (prepared by ReinitIndexes, or by the documented UpdateTipIndex+ClearBitSets+UpdateBitSet on objects indexed and re-rooted before), and (every 8th case) the gotree compare trees table; plus taxon-mismatch variants; non-trivial = both trees have an inner branch and the pair is not (0,0,0); distinct by the two texts",
 		Assumptions: []string{
 			"pairs of unrooted trees (root degree >= 3) on the same >= 4 taxa (quantifier); weighted comparison on trees with all lengths present",
 			"weighted Sametree is only asserted to imply 'no unshared split' (it additionally compares lengths)",
